@@ -459,6 +459,11 @@ class Model:
         if isinstance(callee, EnumRef):
             return ("enumof", callee.qualname, to_term(pos[0]) if pos else None)
         if isinstance(callee, Obj):
+            if "__partial__" in callee.attrs:          # functools.partial(f, *a, **k)(*b, **l) == f(*a, *b, **{**k, **l})
+                f0, a0_, k0_ = callee.attrs["__partial__"]
+                return self.invoke(f0, list(a0_) + list(pos), {**k0_, **kw}, node, name)
+            if "__itemgetter__" in callee.attrs and len(pos) == 1 and not kw:
+                return self.getitem(pos[0], callee.attrs["__itemgetter__"], node)
             if callee.cls is not None:
                 m = I.find_method(callee.cls, "__call__")
                 if m is not None:
